@@ -45,12 +45,15 @@ Definition valid_op (p : part) (o : op) : Prop :=
   | ORemove _ _ => True
   | OSetQ t _ => 0 <= t
   | OGetOrAdd t => 0 <= t
+  | OTpRemove _ _ => True
   end.
 
-(* operations that cannot leave an empty point: everything except get_or_add_point at a new time *)
+(* operations that cannot leave an empty point: everything except get_or_add_point at a new time and
+   TimePoint.remove_*_object of a registered side (no clean-up there) *)
 Definition strict_op (p : part) (o : op) : Prop :=
   match o with
   | OGetOrAdd t => get_point t (points p) <> None
+  | OTpRemove ob s => oref s p ob = None
   | _ => True
   end.
 
@@ -87,12 +90,14 @@ Definition spec_start (a : apart) (o : op) : obj -> option Z :=
   match o with
   | OAdd ob s _ => upd_opt (a_start a) ob s
   | ORemove ob (WStart | WBoth) => fset (a_start a) ob None
+  | OTpRemove ob SStart => fset (a_start a) ob None
   | _ => a_start a
   end.
 Definition spec_end (a : apart) (o : op) : obj -> option Z :=
   match o with
   | OAdd ob _ e => upd_opt (a_end a) ob e
   | ORemove ob (WEnd | WBoth) => fset (a_end a) ob None
+  | OTpRemove ob SEnd => fset (a_end a) ob None
   | _ => a_end a
   end.
 (* O3: q is in force from t up to the next later change, nothing else changes *)
